@@ -337,6 +337,25 @@ def rebuild(t, f: Callable[[tuple], Optional[Term]]):
     return new if r is None else r
 
 
+def resolve_ifexp(t, conds) -> Term:
+    """Replace every conditional-expression atom whose condition (or its negation) is among the path conditions
+    `conds` by the selected alternative: a value computed by `x = a if c else b` and a value computed on the
+    branch of `if c:` are then directly comparable."""
+    cs = set(conds)
+
+    def f(a):
+        if a[0] == 'ifexp':
+            if a[1] in cs:
+                return as_poly(a[2]) if is_poly(a[2]) else atom(a[2]) if isinstance(a[2], tuple) else a[2]
+            try:
+                if mk_not(a[1]) in cs:
+                    return as_poly(a[3]) if is_poly(a[3]) else atom(a[3]) if isinstance(a[3], tuple) else a[3]
+            except Exception:
+                pass
+        return None
+    return rebuild(t, f)
+
+
 def subst_atoms(t, mapping: Dict[tuple, Term]):
     if not mapping:
         return t
